@@ -373,6 +373,17 @@ pub fn run_c05(tier: Tier) -> ! {
             }
         }
     }
+    // API-call world: the application list changes while the station is offline (the documentation allows
+    // exactly that): live list + scanner through poll_multi() <-> live list alone through poll(), with
+    // set_offline() at every point of the round robin (found by a seeded change: a scheduling index that
+    // survived set_offline())
+    for (ts, hsa) in tier.pick(vec![(0u8, 3u8)], vec![(0u8, 3u8), (2, 4)]) {
+        for apps in [3u8, 1] {
+            let alphabet = vec![Sym::Wait(WaitLen::HalfSlot), Sym::Wait(WaitLen::SlotPlus), Sym::Wait(WaitLen::TimeoutPlus), Sym::SetOffline, Sym::SwitchApps, Sym::SetOnline];
+            let cfg = W2Cfg { ts, hsa, gap_factor: 10, baud: 1, slot_bits: 100, ttr: None, period_div: 8, alphabet, prefix: vec![], mon: W2Mon::C05, apps };
+            cfgs.push((format!("app list switched while offline TS{ts} HSA{hsa} apps{apps}"), cfg, tier.pick(9, 12), tier.pick(120.0, 3000.0), tier.pick(400_000, 2_000_000)));
+        }
+    }
     w2_explore(cfgs, &mut t);
     // (iii) DP master in direct drive, 0..3 peripherals
     let mut plans = vec![];
